@@ -184,6 +184,130 @@ Proof.
   - apply (c16_end_plan_nth en e a b H).
 Qed.
 
+
+(* ---- for EVERY grid and leading shape ---- *)
+
+(* swapping the two faces of every interior row changes no difference and no gradient *)
+Lemma c16_diff_swap_all d ef :
+  Forall (fun p => is_fill (fst p) = false) ef ->
+  Forall2 Qeq (c16_edge_face_diff d ef) (c16_edge_face_diff d (map c16_swap ef)).
+Proof.
+  induction ef as [|[a b] ef IH]; intros Hf; cbn [map c16_edge_face_diff]; [constructor|].
+  inversion Hf as [|? ? Ha Hr]; subst. cbn [fst snd] in Ha.
+  unfold c16_edge_face_diff in *. cbn [map]. constructor; [|apply IH; exact Hr].
+  unfold c16_swap; cbn [fst snd]. destruct (is_fill b) eqn:F; cbn [fst snd]; rewrite ?F, ?Ha; [reflexivity|].
+  apply c16_diff_sym.
+Qed.
+
+Lemma c16_grad_swap_all : forall diff diff' ef dist,
+  Forall2 Qeq diff diff' -> Forall (fun p => is_fill (fst p) = false) ef ->
+  Forall2 Qeq (c16_grad diff ef dist) (c16_grad diff' (map c16_swap ef) dist).
+Proof.
+  induction diff as [|g diff IH]; intros diff' ef dist H Hf; inversion H; subst; simpl; [constructor|].
+  destruct ef as [|[a b] ef]; [constructor|]. destruct dist as [|D dist]; [constructor|].
+  inversion Hf; subst. simpl in *. constructor.
+  - unfold c16_swap; simpl. destruct (is_fill b) eqn:F; simpl; rewrite ?F.
+    + assumption.
+    + match goal with Hx : is_fill a = false |- _ => rewrite Hx end.
+      match goal with Hq : (g == _)%Q |- _ => rewrite Hq end. reflexivity.
+  - apply IH; assumption.
+Qed.
+
+Lemma c16_gradient_swap_all d ef dist :
+  Forall (fun p => is_fill (fst p) = false) ef ->
+  Forall2 Qeq (c16_gradient d ef dist) (c16_gradient d (map c16_swap ef) dist).
+Proof. intros Hf. unfold c16_gradient. apply c16_grad_swap_all; [apply c16_diff_swap_all; exact Hf|exact Hf]. Qed.
+
+Lemma c16_swap_all_nd rows ef dist :
+  Forall (fun p => is_fill (fst p) = false) ef ->
+  Forall2 (Forall2 Qeq) (c16_edge_face_diff_nd rows ef) (c16_edge_face_diff_nd rows (map c16_swap ef)) /\
+  Forall2 (Forall2 Qeq) (c16_gradient_nd rows ef dist) (c16_gradient_nd rows (map c16_swap ef) dist).
+Proof.
+  intros Hf. unfold c16_edge_face_diff_nd, c16_gradient_nd.
+  split; induction rows as [|d rows IH]; simpl; constructor; auto.
+  - apply c16_diff_swap_all; exact Hf.
+  - apply c16_gradient_swap_all; exact Hf.
+Qed.
+
+(* constant along the element dimension, whatever the leading shape: everything vanishes *)
+Lemma c16_const_nd rows ef en dist :
+  Forall (fun d => forall i j, (c16_at d i == c16_at d j)%Q) rows ->
+  Forall (Forall (fun v => (v == 0)%Q)) (c16_edge_face_diff_nd rows ef) /\
+  Forall (Forall (fun v => (v == 0)%Q)) (c16_edge_node_diff_nd rows en) /\
+  Forall (Forall (fun v => (v == 0)%Q)) (c16_gradient_nd rows ef dist).
+Proof.
+  intros H. unfold c16_edge_face_diff_nd, c16_edge_node_diff_nd, c16_gradient_nd.
+  repeat split; induction H as [|d rows Hd Hr IH]; simpl; constructor; auto.
+  - apply c16_const_diff; exact Hd.
+  - apply c16_const_node_diff; exact Hd.
+  - apply c16_const_gradient; exact Hd.
+Qed.
+
+(* ---- frame theorem over histories: a stored distance table is never changed ---- *)
+Lemma c16_hstep_frame se sf en ef s o :
+  (forall t, gs_end s = Some t -> gs_end (c16_hstep se sf en ef s o) = Some t) /\
+  (forall t, gs_efd s = Some t -> gs_efd (c16_hstep se sf en ef s o) = Some t).
+Proof.
+  destruct o; simpl; destruct (gs_end s) eqn:E1, (gs_efd s) eqn:E2; simpl;
+    split; intros t H; try rewrite E1; try rewrite E2; try assumption; try discriminate.
+Qed.
+
+Lemma c16_history_frame se sf en ef ops : forall s,
+  (forall t, gs_end s = Some t -> gs_end (fold_left (c16_hstep se sf en ef) ops s) = Some t) /\
+  (forall t, gs_efd s = Some t -> gs_efd (fold_left (c16_hstep se sf en ef) ops s) = Some t).
+Proof.
+  induction ops as [|o ops IH]; intros s; simpl; [split; auto|].
+  destruct (c16_hstep_frame se sf en ef s o) as [F1 F2].
+  destruct (IH (c16_hstep se sf en ef s o)) as [G1 G2].
+  split; intros t H; [apply G1, F1, H|apply G2, F2, H].
+Qed.
+
+(* whatever the history, a table that is present is THE table of the grid: the plan of the kernel,
+   or the source's own *)
+Definition c16_tables_right (se sf : bool) (en ef : list (Z * Z)) (s : c16_gstate) : Prop :=
+  (gs_end s = None \/ gs_end s = Some (c16_grid_end se en)) /\
+  (gs_efd s = None \/ gs_efd s = Some (c16_grid_efd sf ef)).
+
+Lemma c16_hstep_right se sf en ef s o :
+  c16_tables_right se sf en ef s -> c16_tables_right se sf en ef (c16_hstep se sf en ef s o).
+Proof.
+  intros [[A|A] [B|B]]; destruct o; simpl; rewrite ?A, ?B; simpl; split; auto.
+Qed.
+
+Lemma c16_history_tables se sf en ef ops :
+  c16_tables_right se sf en ef (c16_hrun se sf en ef ops).
+Proof.
+  unfold c16_hrun.
+  assert (I : c16_tables_right se sf en ef (c16_hinit se sf en ef))
+    by (unfold c16_hinit, c16_tables_right; destruct se, sf; simpl; auto).
+  revert I. generalize (c16_hinit se sf en ef).
+  induction ops as [|o ops IH]; intros s I; simpl; [exact I|].
+  apply IH. apply c16_hstep_right. exact I.
+Qed.
+
+(* so two reads anywhere in any history return the same table *)
+Lemma c16_reads_agree se sf en ef ops1 ops2 t1 t2 :
+  gs_efd (c16_hrun se sf en ef ops1) = Some t1 ->
+  gs_efd (c16_hrun se sf en ef (ops1 ++ ops2)) = Some t2 -> t1 = t2.
+Proof.
+  intros H1 H2. unfold c16_hrun in *. rewrite fold_left_app in H2.
+  destruct (c16_history_frame se sf en ef ops2 (fold_left (c16_hstep se sf en ef) ops1 (c16_hinit se sf en ef))) as [_ F].
+  rewrite (F _ H1) in H2. inversion H2. reflexivity.
+Qed.
+
+Example c16_history_nonvacuous :
+  gs_efd (c16_hrun false false [(0, 1)] [(0, FILL)] [HGrad true; HReadEnd]) = Some [EZero] /\
+  gs_efd (c16_hrun false false [(0, 1)] [(0, FILL)] ([HGrad true; HReadEnd] ++ [HDiff; HReadEfd; HGrad false])) = Some [EZero].
+Proof. split; reflexivity. Qed.
+
+Example c16_swap_nonvacuous :
+  Forall (fun p => is_fill (fst p) = false) [(3, 0); (2, FILL)] /\ map c16_swap [(3, 0); (2, FILL)] = [(0, 3); (2, FILL)].
+Proof. split; [repeat constructor|reflexivity]. Qed.
+
+Example c16_const_nd_nonvacuous :
+  Forall (fun d => forall i j, (c16_at d i == c16_at d j)%Q) [[]; []].
+Proof. repeat constructor; intros i j; unfold c16_at; destruct (Z.to_nat i), (Z.to_nat j); reflexivity. Qed.
+
 (* ========================================================================================== *)
 (* Section B: over R                                                                             *)
 Local Open Scope R_scope.
@@ -397,6 +521,28 @@ Proof.
   unfold c16_l2. rewrite sqrt_sqrt by lra.
   replace (c16_sumsq g / c16_sumsq g) with 1 by (field; lra). apply sqrt_1.
 Qed.
+
+
+(* the l2 norm vanishes exactly when every entry does: "unit norm unless all entries are 0" *)
+Lemma c16_sumsq_zero g : c16_sumsq g = 0 <-> Forall (fun x => x = 0) g.
+Proof.
+  induction g as [|x g IH]; simpl.
+  - split; [constructor|reflexivity].
+  - pose proof (c16_sumsq_nonneg g). split.
+    + intros H0. assert (x * x = 0 /\ c16_sumsq g = 0) as [Hx Hg] by (split; nra).
+      constructor; [nra|apply IH; exact Hg].
+    + intros Hf. inversion Hf; subst. rewrite (proj2 IH) by assumption. ring.
+Qed.
+
+Lemma c16_unit_norm_unless_zero g :
+  ~ Forall (fun x => x = 0) g -> c16_l2 (c16_normalize g) = 1.
+Proof.
+  intros H. apply c16_unit_norm. pose proof (c16_sumsq_nonneg g) as P.
+  destruct (Req_dec (c16_sumsq g) 0) as [Z|Z]; [exfalso; apply H; apply c16_sumsq_zero; exact Z|lra].
+Qed.
+
+Example c16_unit_norm_unless_zero_nonvacuous : ~ Forall (fun x => x = 0) [0; 2; 0].
+Proof. intros H. inversion H as [|? ? _ H1]; subst. inversion H1; subst. lra. Qed.
 
 (* non-vacuity *)
 Example c16_diff_nonvacuous :
